@@ -118,6 +118,8 @@ class Check:
             cmd += ["-seed", str(seed)]
         cmd += (extra_args or []) + [module + ".tla"]
         env = dict(os.environ)
+        # deep (lazy) values such as long version stores overflow the default Java stack
+        env["JAVA_TOOL_OPTIONS"] = (env.get("JAVA_TOOL_OPTIONS", "") + " -Xss512m").strip()
         if deque:
             env["JAVA_TOOL_OPTIONS"] = (env.get("JAVA_TOOL_OPTIONS", "") +
                                         " -Dtlc2.tool.queue.IStateQueue=StateDeque").strip()
@@ -125,6 +127,8 @@ class Check:
         p = subprocess.run(cmd, cwd=d, env=env, capture_output=True, text=True)
         r = TLCResult(p.stdout + p.stderr, p.returncode, time.time() - t)
         r.dir = d
+        with open(os.path.join(d, "tlc.out"), "w") as fh:
+            fh.write(r.out)
         if p.returncode == 124:
             raise Infra("TLC timed out after %ds on %s/%s" % (timeout, module, cfg))
         if count:
